@@ -136,7 +136,7 @@ pub fn run(cfg: &Cfg, ev: &mut Ev, leg: Leg) {
             .env("VERIF_SHARD", format!("{residue}/{}", leg.modulus))
             .env("VERIF_LEG", "1")
             .env("VERIF_WORKERS", "1")
-            .env("VERIF_LEG_BUDGET_S", (leg.limit.as_secs() * 3 / 4).max(10).to_string())
+            .env("VERIF_LEG_BUDGET_S", (leg.limit.as_secs() * 2 / 5).max(10).to_string())
             .env("RUST_BACKTRACE", "0")
             .stdin(Stdio::null())
             .stdout(Stdio::from(outf))
